@@ -133,6 +133,10 @@ Or2(x, y) ==
                            [] OTHER         -> Union2(y, x))
     [] OTHER         -> Union2(x, y)
 
+\* TRUE: when the unique parts reduce to the neutral element and ONE marker is shared, that marker is returned itself
+\* (fix commits d85fbe4 / f9a81a3); FALSE: the historical `neutral op Compound(one child)`, which AnyMarker.__and__ /
+\* EmptyMarker.__or__ returned unchanged - a one-child compound (HasSingletonCompound)
+SharedSingleStandsForItself == TRUE
 \* MarkerUnion.intersect_simplify(self, other) -> [ok, m]
 IntersectSimplify(u, other) ==
   IF InSeq(other, u.ch) THEN [ok |-> TRUE, m |-> other]
@@ -145,7 +149,9 @@ IntersectSimplify(u, other) ==
                 ouniq  == SelectSeq(other.ch, LAMBDA x : x \notin our)
                 common == SelectSeq(u.ch, LAMBDA x : x \in their)
                 ui     == And2(UnionC(uniq), UnionC(ouniq))
-            IN IF IsSingle(ui) \/ IsEmpty(ui) THEN [ok |-> TRUE, m |-> Or2(ui, UnionC(common))]
+            IN IF IsSingle(ui) \/ IsEmpty(ui)
+                 THEN [ok |-> TRUE, m |-> IF SharedSingleStandsForItself /\ IsEmpty(ui) /\ Len(common) = 1 THEN common[1]
+                                          ELSE Or2(ui, UnionC(common))]
                ELSE [ok |-> FALSE, m |-> AnyM]
 \* MultiMarker.union_simplify(self, other) -> [ok, m]
 UnionSimplify(mm, other) ==
@@ -159,7 +165,9 @@ UnionSimplify(mm, other) ==
                 ouniq  == SelectSeq(other.ch, LAMBDA x : x \notin our)
                 common == SelectSeq(mm.ch, LAMBDA x : x \in their)
                 uu     == Or2(MultiC(uniq), MultiC(ouniq))
-            IN IF IsSingle(uu) \/ IsAny(uu) THEN [ok |-> TRUE, m |-> And2(uu, MultiC(common))]
+            IN IF IsSingle(uu) \/ IsAny(uu)
+                 THEN [ok |-> TRUE, m |-> IF SharedSingleStandsForItself /\ IsAny(uu) /\ Len(common) = 1 THEN common[1]
+                                          ELSE And2(uu, MultiC(common))]
                ELSE [ok |-> FALSE, m |-> AnyM]
 
 \* inner `for i, mark in enumerate(new_markers)` of MultiMarker.of: result [hit, new, empty]
@@ -297,7 +305,13 @@ Raw3    == Raw2 \cup { Mk(c, <<a, b>>) : c \in {"and", "or"}, a \in Raw1 \ Leafs
 \* alternatives that become COMPARABLE only after a variable is eliminated: (a and b and c) or (a and b and d)
 Fam3    == { Mk("or", <<Mk("and", <<q[1], q[2], q[3]>>), Mk("and", <<q[1], q[2], q[4]>>)>>) :
                q \in { z \in Leafs \X Leafs \X Leafs \X Leafs : Cardinality({z[1], z[2], z[3], z[4]}) = 4 } }
-Inputs3 == { Build(t) : t \in Raw3 \cup Fam3 }
+\* conjunctions of alternatives that share a member and whose remaining parts CANCEL once a guard variable is
+\* eliminated:  (s or a1 or g1) and (s or a2 or g2)  --exclude(guard)-->  (s or a1) and (s or a2),  a1 and a2 disjoint
+Fam4    == { Mk("and", <<Mk("or", <<z[1], z[2], z[4]>>), Mk("or", <<z[1], z[3], z[5]>>)>>) :
+               z \in { w \in Leafs \X Leafs \X Leafs \X Leafs \X Leafs :
+                        /\ w[2].var = w[3].var /\ w[2] # w[3] /\ w[4].var = w[5].var /\ w[4] # w[5]
+                        /\ Cardinality({w[1].var, w[2].var, w[4].var}) = 3 } }
+Inputs3 == { Build(t) : t \in Raw3 \cup Fam3 \cup Fam4 }
 ProjInit == x \in Inputs3 /\ y = x /\ op = "init" /\ res = AnyM
 ProjNext == /\ op = "init"
             /\ \/ \E v \in Vars : op' = "exclude_" \o v /\ res' = Exclude(x, v)
@@ -314,19 +328,20 @@ ClosureNext == \/ op' = "and"  /\ x' = And2(x, y) /\ res' = x' /\ UNCHANGED y
                \/ op' = "swap" /\ x' = y /\ y' = x /\ UNCHANGED res
 ClosureSpec == ClosureInit /\ [][ClosureNext]_nvars
 ClosureBound == TLCGet("level") <= 3
-ClosureNormal == (NormalForm(x) \/ HasSingletonCompound(x)) /\ (NormalForm(y) \/ HasSingletonCompound(y))
+Tolerated(m) == ~SharedSingleStandsForItself /\ HasSingletonCompound(m)
+ClosureNormal == (NormalForm(x) \/ Tolerated(x)) /\ (NormalForm(y) \/ Tolerated(y))
 ClosureSound == [][ (op' = "and" => Den(x') = Den(x) \cap Den(y)) /\ (op' = "or" => Den(x') = Den(x) \cup Den(y)) ]_nvars
 
 \* inputs obtained by parsing are in normal form (C15) and mean what their text means
-InputsNormal == (NormalForm(x) \/ HasSingletonCompound(x)) /\ (NormalForm(y) \/ HasSingletonCompound(y))
+InputsNormal == (NormalForm(x) \/ Tolerated(x)) /\ (NormalForm(y) \/ Tolerated(y))
 \* C02: & and | are sound under evaluation
 Sound == /\ (op = "and" => Den(res) = Den(x) \cap Den(y))
          /\ (op = "or"  => Den(res) = Den(x) \cup Den(y))
-\* C15: results are in normal form.  Named deviation (recorded finding, DESIGN 10.2): union_simplify /
-\* intersect_simplify combine the simplified unique part with `MultiMarker(*common)` / `MarkerUnion(*common)`;
-\* when the unique part is the neutral element and there is ONE common marker, AnyMarker.__and__ /
-\* EmptyMarker.__or__ return that one-child compound unchanged.
-ResultNormal == op # "init" => NormalForm(res) \/ HasSingletonCompound(res)
+\* C15: results are in normal form.  (Historical deviation, toggle SharedSingleStandsForItself: union_simplify /
+\* intersect_simplify combined the simplified unique part with `MultiMarker(*common)` / `MarkerUnion(*common)`;
+\* when the unique part was the neutral element and there was ONE common marker, AnyMarker.__and__ /
+\* EmptyMarker.__or__ returned that one-child compound unchanged.)
+ResultNormal == op # "init" => NormalForm(res) \/ Tolerated(res)
 \* C12: only / exclude
 Projections == \A v \in Vars :
    /\ (op = "exclude_" \o v => v \notin VarsOf(res) /\ (v \notin VarsOf(x) => Den(res) = Den(x)))
